@@ -42,6 +42,7 @@ class Monitor(object):
         self.atoms = 0
         self.getexpr = 0
         self.calls = 0           # python-level calls (only while profiling)
+        self.jumps = 0           # backward jumps = loop iterations (only while profiling, sys.monitoring)
         self._active = []        # re-entrancy stack for push/compute overrides calling super
 
     # -- events ---------------------------------------------------------------------------
@@ -69,7 +70,7 @@ class Monitor(object):
     def snapshot(self):
         return {"cb": self.cb, "cb_max": self.cb_max, "push": self.push, "compute": self.compute,
                 "create": self.create, "created": self.created, "atoms": self.atoms,
-                "getexpr": self.getexpr, "calls": self.calls, "by": dict(self.cb_by)}
+                "getexpr": self.getexpr, "calls": self.calls, "jumps": self.jumps, "by": dict(self.cb_by)}
 
     # -- python-call budget ---------------------------------------------------------------
     # sys.monitoring (3.12+, PY_START events: one per Python-level call) is about half as
@@ -98,7 +99,13 @@ class Monitor(object):
                         m.limit_calls = None
                         raise BudgetExceeded("more than %d python-level calls" % lim)
                 sm.register_callback(Monitor._tool, sm.events.PY_START, on_start)
-            sm.set_events(Monitor._tool, sm.events.PY_START)
+
+                def on_jump(code, src, dst):
+                    # a loop that calls nothing (a scan over the arguments of a node) is work too
+                    if dst < src:
+                        MON.jumps += 1
+                sm.register_callback(Monitor._tool, sm.events.JUMP, on_jump)
+            sm.set_events(Monitor._tool, sm.events.PY_START | sm.events.JUMP)
             return
 
         def prof(frame, event, arg):
